@@ -67,6 +67,11 @@ inductive Label where
   | rUnwind              -- the panic leaves one native frame (recover → handleThrow(ex = nil) → re-panic)
   | rSwallow             -- a Go function between two run loops ignores the error it got from the nested call
   | rReturn              -- outermost recover: err = InterruptedError; leaveAbrupt()
+  | rCtl                 -- runner-side control that executes NO instruction and touches no shared cell: leaving a run loop
+                         -- (halt, JS exception), a native frame returning or re-entering, a Go frame swallowing the
+                         -- error it got (raised → back to its run loop).  Coarser than rHalt/rNativeRet/rSwallow/…:
+                         -- it forgets depth and queue; used by the traces the sequential interpreter emits.
+  | rExit                -- the API call returns without an error
   deriving DecidableEq, Repr
 
 def setI (f : Nat → IPc) (t : Nat) (x : IPc) : Nat → IPc := fun t' => if t' = t then x else f t'
@@ -123,6 +128,14 @@ def step (s : S) : Label → Option S
     | .raised v =>
       if s.depth = 0 then some { s with rpc := .idle, flag := false, queue := 0, inLeave := false, result := some v } else none
     | _ => none
+  | .rCtl =>
+    match s.rpc with
+    | .poll => some s
+    | .exec => some { s with rpc := .poll }
+    | .native => some { s with rpc := .poll }
+    | .raised _ => some { s with rpc := .poll }
+    | _ => none
+  | .rExit => if s.rpc = .poll then some { s with rpc := .idle } else none
 
 def run : S → List Label → Option S
   | s, [] => some s
